@@ -1,6 +1,7 @@
 import SamVerif.Lemmas.Useful
 import SamVerif.Lemmas.UsefulTerm
 import SamVerif.Lemmas.UsefulNorm
+import SamVerif.Lemmas.UsefulSem
 /-!
 # C07 — Exhaustiveness and usefulness analysis of patterns is exact
 
@@ -638,6 +639,20 @@ theorem cex_terminates (cx : Cx) (P : Matrix) (n : Nat) :
     ∃ k r, ∀ m, k ≤ m → cexF cx m P n = some r :=
   cex_terminates_aux cx _ _ P n (Nat.lt_succ_self _) (Nat.le_refl _)
 
+/-- **Explicit fuel bound**: `usefulFuel P q` (computed from the weights and the largest constructor
+arity) is enough, for every input. -/
+theorem useful_fuel_bound (cx : Cx) (P : Matrix) (q : Row) :
+    ∃ b, ∀ m, usefulFuel P q ≤ m → usefulF cx m P q = some b := by
+  obtain ⟨r, h⟩ := useful_fuel_aux cx (max (arM P) (arL q))
+    ((matW P + rowW q) * (max (arM P) (arL q) + 1) + q.length) P q
+    (Nat.le_max_left _ _) (Nat.le_max_right _ _) (Nat.le_refl _)
+  exact ⟨r, fun m hm => h m (by unfold usefulFuel at hm; omega)⟩
+
+theorem cex_fuel_bound (cx : Cx) (P : Matrix) (n : Nat) :
+    ∃ r, ∀ m, cexFuel P n ≤ m → cexF cx m P n = some r := by
+  obtain ⟨r, h⟩ := cex_fuel_aux cx (arM P) (matW P * (arM P + 1) + n) P n (Nat.le_refl _) (Nat.le_refl _)
+  exact ⟨r, fun m hm => h m (by unfold cexFuel at hm; omega)⟩
+
 /-- **Usefulness is decided exactly** (fuel-free): the algorithm terminates, and its answer is
 `true` exactly when `q` is useful with respect to `P`. -/
 theorem useful_exact (sig : Sig) (cx : Cx) (hcx : CxOk sig cx) (hinh : Inhabited' sig)
@@ -704,6 +719,107 @@ theorem checker_iflet_exact (sig : Sig) (cx : Cx) (hcx : CxOk sig cx) (hinh : In
     ∃ n u, (∀ m, n ≤ m → isAdditionalPatternUsefulF cx m [p] .wild = some u) ∧
       (u = false ↔ ∀ v, hasTy sig v t = true → pmatch p v = true) :=
   iflet_exact sig cx hcx hinh _ t (normalize_typed sig false src (some t))
+
+/-! ### Source-level statements
+
+`smatch` (Model/Useful.lean) says directly when a value matches a *source* pattern; `swf` singles
+out the source patterns the checker does not report an error for on their own account (known tags /
+fields, no surplus elements, no field twice, consistent or-bindings; omitted fields are allowed).
+`normalize_sem`: for those, the abstract node matches exactly the values the source pattern
+matches.  Hence the property in its own terms: -/
+
+/-- **C07 for `match` / `let`, on source patterns.** The exhaustiveness check terminates; no
+diagnostic ⇔ every value of the scrutinee type is matched (source-level) by some arm; a reported
+counterexample is a well-typed pattern, denotes a value, and no value it denotes is matched
+(source-level) by any arm. -/
+theorem checker_match_exact_src (sig : Sig) (cx : Cx) (hcx : CxOk sig cx) (hnd : SigNodup sig)
+    (hinh : Inhabited' sig) (srcArms : List SPat) (t : Nat)
+    (hwf : ∀ p ∈ srcArms, swf sig true p t = true) :
+    let arms := srcArms.map (fun p => (normalize sig true p (some t)).pat)
+    ∃ n res, (∀ m, n ≤ m → incompleteCounterexampleF cx m arms = some res) ∧
+      (res = none ↔ ∀ v, hasTy sig v t = true → ∃ p ∈ srcArms, smatch sig p t v = true) ∧
+      (∀ d, res = some d → patTy sig d t = true ∧ (∃ v, hasTy sig v t = true ∧ pmatch d v = true) ∧
+        ∀ v, hasTy sig v t = true → pmatch d v = true → ∀ p ∈ srcArms, smatch sig p t v = false) := by
+  intro arms
+  obtain ⟨n, res, h1, h2, h3⟩ := checker_match_exact sig cx hcx hnd hinh srcArms t
+  refine ⟨n, res, h1, ?_, ?_⟩
+  · rw [h2]
+    constructor
+    · intro h v hv
+      obtain ⟨a, ha, hm⟩ := h v hv
+      obtain ⟨p, hp, rfl⟩ := List.mem_map.mp ha
+      exact ⟨p, hp, by rw [← normalize_sem sig true p t v (hwf p hp) hv]; exact hm⟩
+    · intro h v hv
+      obtain ⟨p, hp, hm⟩ := h v hv
+      exact ⟨_, List.mem_map.mpr ⟨p, hp, rfl⟩, by rw [normalize_sem sig true p t v (hwf p hp) hv]; exact hm⟩
+  · intro d hd
+    obtain ⟨hty, hex, hun⟩ := h3 d hd
+    refine ⟨hty, hex, ?_⟩
+    intro v hv hm p hp
+    rw [← normalize_sem sig true p t v (hwf p hp) hv]
+    exact hun v hv hm _ (List.mem_map.mpr ⟨p, hp, rfl⟩)
+
+/-- **C07 for `if let`, on the source pattern**: flagged irrefutable ⇔ it matches (source-level)
+every value of the scrutinee type. -/
+theorem checker_iflet_exact_src (sig : Sig) (cx : Cx) (hcx : CxOk sig cx) (hinh : Inhabited' sig)
+    (src : SPat) (t : Nat) (hwf : swf sig false src t = true) :
+    let p := (normalize sig false src (some t)).pat
+    ∃ n u, (∀ m, n ≤ m → isAdditionalPatternUsefulF cx m [p] .wild = some u) ∧
+      (u = false ↔ ∀ v, hasTy sig v t = true → smatch sig src t v = true) := by
+  intro p
+  obtain ⟨n, u, h1, h2⟩ := checker_iflet_exact sig cx hcx hinh src t
+  refine ⟨n, u, h1, ?_⟩
+  rw [h2]
+  constructor
+  · intro h v hv; rw [← normalize_sem sig false src t v hwf hv]; exact h v hv
+  · intro h v hv; rw [normalize_sem sig false src t v hwf hv]; exact h v hv
+
+/-! ### The functions without a fuel argument (what the driver runs) -/
+
+theorem incompleteCounterexample_eq (cx : Cx) (arms : List Pat) (n : Nat) (res : Option Pat)
+    (h1 : ∀ m, n ≤ m → incompleteCounterexampleF cx m arms = some res) :
+    incompleteCounterexample cx arms = some res := by
+  obtain ⟨r, hr⟩ := cex_fuel_bound cx (arms.map fun e => [e]) 1
+  have e1 := h1 (max n (cexFuel (arms.map fun e => [e]) 1)) (Nat.le_max_left _ _)
+  have c1 := hr (max n (cexFuel (arms.map fun e => [e]) 1)) (Nat.le_max_right _ _)
+  have c2 := hr (cexFuel (arms.map fun e => [e]) 1) (Nat.le_refl _)
+  unfold incompleteCounterexample
+  simp only [incompleteCounterexampleF, c2]
+  simp only [incompleteCounterexampleF, c1] at e1
+  exact e1
+
+theorem isAdditionalPatternUseful_eq (cx : Cx) (existing : List Pat) (p : Pat) (n : Nat) (u : Bool)
+    (h1 : ∀ m, n ≤ m → isAdditionalPatternUsefulF cx m existing p = some u) :
+    isAdditionalPatternUseful cx existing p = some u := by
+  obtain ⟨r, hr⟩ := useful_fuel_bound cx (existing.map fun e => [e]) [p]
+  have e1 := h1 (max n (usefulFuel (existing.map fun e => [e]) [p])) (Nat.le_max_left _ _)
+  have c1 := hr (max n (usefulFuel (existing.map fun e => [e]) [p])) (Nat.le_max_right _ _)
+  have c2 := hr (usefulFuel (existing.map fun e => [e]) [p]) (Nat.le_refl _)
+  unfold isAdditionalPatternUseful
+  simp only [isAdditionalPatternUsefulF] at e1 ⊢
+  rw [c2]; rw [c1] at e1; exact e1
+
+/-- **`incomplete_counterexample`, no fuel, source level**: the model function the driver executes
+always returns, and its answer is exact in the sense of `checker_match_exact_src`. -/
+theorem checker_match_decided (sig : Sig) (cx : Cx) (hcx : CxOk sig cx) (hnd : SigNodup sig)
+    (hinh : Inhabited' sig) (srcArms : List SPat) (t : Nat)
+    (hwf : ∀ p ∈ srcArms, swf sig true p t = true) :
+    let arms := srcArms.map (fun p => (normalize sig true p (some t)).pat)
+    ∃ res, incompleteCounterexample cx arms = some res ∧
+      (res = none ↔ ∀ v, hasTy sig v t = true → ∃ p ∈ srcArms, smatch sig p t v = true) ∧
+      (∀ d, res = some d → patTy sig d t = true ∧ (∃ v, hasTy sig v t = true ∧ pmatch d v = true) ∧
+        ∀ v, hasTy sig v t = true → pmatch d v = true → ∀ p ∈ srcArms, smatch sig p t v = false) := by
+  obtain ⟨n, res, h1, h2, h3⟩ := checker_match_exact_src sig cx hcx hnd hinh srcArms t hwf
+  exact ⟨res, incompleteCounterexample_eq cx _ n res h1, h2, h3⟩
+
+/-- **`is_additional_pattern_useful([p], _)`, no fuel, source level.** -/
+theorem checker_iflet_decided (sig : Sig) (cx : Cx) (hcx : CxOk sig cx) (hinh : Inhabited' sig)
+    (src : SPat) (t : Nat) (hwf : swf sig false src t = true) :
+    let p := (normalize sig false src (some t)).pat
+    ∃ u, isAdditionalPatternUseful cx [p] .wild = some u ∧
+      (u = false ↔ ∀ v, hasTy sig v t = true → smatch sig src t v = true) := by
+  obtain ⟨n, u, h1, h2⟩ := checker_iflet_exact_src sig cx hcx hinh src t hwf
+  exact ⟨u, isAdditionalPatternUseful_eq cx _ _ n u h1, h2⟩
 
 /-
 Full-strength statement without the side condition `okPats q` (no `nothing()` = `Or([])` inside the
@@ -782,6 +898,8 @@ def pNone : Pat := .struct (some ⟨0, 0⟩) []
 def pSome (p : Pat) : Pat := .struct (some ⟨0, 1⟩) [p]
 
 -- `Some(_)` after `None`: useful; `_` after `None, Some(_)`: useless; typed, ok, enough fuel.
+example : isAdditionalPatternUseful cxEx [pNone] (pSome .wild) = some true := by decide
+example : (incompleteCounterexample cxEx [pNone]).map Option.isSome = some true := by decide
 example : isAdditionalPatternUsefulF cxEx 10 [pNone] (pSome .wild) = some true := by decide
 example : isAdditionalPatternUsefulF cxEx 10 [pNone, pSome .wild] .wild = some false := by decide
 example : patTy sigEx (pSome .wild) 1 = true ∧ patTy sigEx pNone 1 = true := by decide
@@ -791,6 +909,13 @@ example : isAdditionalPatternUsefulF cxEx 10 [pSome .wild] .wild = some true := 
 -- the theorem instantiates on them
 example : (incompleteCounterexampleF cxEx 10 [pNone, pSome .wild]).map Option.isNone = some true := by decide
 example : (incompleteCounterexampleF cxEx 10 [pNone]).map Option.isSome = some true := by decide
+-- source level: `{ b as Nil, a as None }` on `Pair(a: Opt, b: List)` (fields renamed and reordered)
+-- matches exactly the pairs (None, Nil)
+example : swf sigEx true (.object [1, 0] [.variant 0 [], .variant 0 []]) 3 = true := by decide
+example : smatch sigEx (.object [1, 0] [.variant 0 [], .variant 0 []]) 3
+    (.con none [.con (some ⟨0, 0⟩) [], .con (some ⟨1, 0⟩) []]) = true := by decide
+example : smatch sigEx (.object [1, 0] [.variant 0 [], .variant 0 []]) 3
+    (.con none [.con (some ⟨0, 1⟩) [.prim 5], .con (some ⟨1, 0⟩) []]) = false := by decide
 -- fuel-free, both directions, on the example signature
 example : ∃ n res, (∀ m, n ≤ m → incompleteCounterexampleF cxEx m [pNone, pSome .wild] = some res) ∧
     (res = none ↔ ∀ v, hasTy sigEx v 1 = true → ∃ a ∈ [pNone, pSome .wild], pmatch a v = true) := by
